@@ -333,6 +333,9 @@ def rand_style(rng):
 def run(ctx):
     rng = ctx.rng
     ctx.model_check("mc/MC_Symop.tla", MC_CFG % ctx.pick("FALSE", "TRUE"), name="MC_Symop", timeout=1200)
+    # unbounded facts about the translation arithmetic (equality modulo the lattice, shifts, inversion), proved by TLAPS
+    from harness import tlaps
+    ctx.notes["tlaps"] = tlaps.prove("proofs/SymopProofs.tla")
     rows = table_rows()
     tab_codes = sorted({c for r in rows for c in r["ops"]})
     recipes = [{"k": "codec", "c": c, "src": "table"} for c in tab_codes]
